@@ -146,6 +146,9 @@ func (g *G) AuthzFor(known []ref.Pred, maxFacts, maxRules, maxChecks, maxPolicie
 			a.Checks = append(a.Checks, g.Check(8))
 		}
 	}
+	if maxChecks >= 2 && g.R.Intn(5) == 0 {
+		a.Checks = append(a.Checks, g.NearDuplicateChecks(pool)...)
+	}
 	for i := g.R.Intn(maxPolicies + 1); i > 0; i-- {
 		if g.R.Intn(2) == 0 {
 			a.Policies = append(a.Policies, ref.Policy{Allow: g.R.Intn(3) != 0, Queries: []ref.Rule{g.QueryFrom(pool)}})
@@ -171,6 +174,48 @@ func (g *G) BlockFor(known []ref.Pred, maxFacts, maxRules, maxChecks int) ref.Bl
 		}
 	}
 	return b
+}
+
+// NearDuplicateChecks returns two checks with the same body and the same number
+// of expressions but different expressions (e.g. "not after" / "not before" on
+// one fact), which anything that identifies checks by their shape would confuse.
+func (g *G) NearDuplicateChecks(facts []ref.Pred) []ref.Check {
+	for _, i := range g.R.Perm(len(facts)) {
+		f := facts[i]
+		for j, t := range f.Terms {
+			var e1, e2 ref.Expr
+			v := ref.Leaf(ref.Var("nd"))
+			switch t.K {
+			case ref.KInt:
+				e1 = ref.Bin("<=", v, ref.Leaf(ref.Int(t.I+int64(g.R.Intn(2)))))
+				e2 = ref.Bin(">=", v, ref.Leaf(ref.Int(t.I+int64(g.R.Intn(3)))))
+			case ref.KDate:
+				e1 = ref.Bin("<=", v, ref.Leaf(ref.Date(t.D+uint64(g.R.Intn(2)))))
+				e2 = ref.Bin(">", v, ref.Leaf(ref.Date(t.D)))
+			case ref.KStr:
+				e1 = ref.Bin("==", v, ref.Leaf(t))
+				e2 = ref.Bin("prefix", v, ref.Leaf(ref.Str(t.S+"x")))
+			default:
+				continue
+			}
+			p := ref.Pred{Name: f.Name}
+			for k, ft := range f.Terms {
+				if k == j {
+					p.Terms = append(p.Terms, ref.Var("nd"))
+				} else {
+					p.Terms = append(p.Terms, ft)
+				}
+			}
+			mk := func(e ref.Expr) ref.Check {
+				return ref.Check{Queries: []ref.Rule{{Head: ref.Pred{Name: "query"}, Body: []ref.Pred{p}, Exprs: []ref.Expr{e}}}}
+			}
+			if g.R.Intn(2) == 0 {
+				return []ref.Check{mk(e1), mk(e2)}
+			}
+			return []ref.Check{mk(e2), mk(e1)}
+		}
+	}
+	return nil
 }
 
 // Targets collects the queries of an authorizer and of a token's checks.
